@@ -53,6 +53,9 @@ func genC08(rng *rand.Rand, tier string) *sim.Plan {
 			v5 := p.Clients[i].Ver == 5
 			wn++
 			wl := &sim.Will{Topic: fmt.Sprintf("w/%d", i), Payload: fmt.Sprintf("will%d", wn), QoS: byte(rng.IntN(3)), Retain: chance(rng, 0.3)}
+			if wl.Retain && cy > 0 && chance(rng, 0.3) {
+				wl.Payload = "" // a retained will with an empty payload clears the topic's retained message (judged by the late subscriber)
+			}
 			op := sim.Op{K: "connect", C: i, Clean: chance(rng, 0.4), Will: wl}
 			d, e := 0, 0
 			if v5 {
@@ -93,6 +96,10 @@ func genC08(rng *rand.Rand, tier string) *sim.Plan {
 			// how the connection ends
 			switch k := rng.IntN(12); {
 			case k < 2:
+				if chance(rng, 0.5) {
+					// the DISCONNECT is not the only packet the broker has read when the connection goes away
+					ph2.Ops = append(ph2.Ops, sim.Op{K: "publish", C: i, Topic: "x/pre", Payload: "pre", NoWait: true})
+				}
 				dop := sim.Op{K: "disconnect", C: i}
 				if v5 && e == 0 && chance(rng, 0.4) {
 					// protocol error (MQTT 5 3.14.2.2.2): a non-zero Session Expiry Interval in DISCONNECT when
@@ -154,6 +161,10 @@ func genC08(rng *rand.Rand, tier string) *sim.Plan {
 		ph4.Advance = sim.Sec(cfgExp + 30 + 1000)
 		p.Phases = append(p.Phases, ph4)
 	}
+	// long after every will has been published or cancelled: what a new subscriber is given as retained messages
+	p.Clients = append(p.Clients, sim.ClientSpec{ID: "late", Ver: 4})
+	p.Params = map[string]string{"late": "1"}
+	p.Phases = append(p.Phases, sim.Phase{Ops: []sim.Op{{K: "connect", C: len(p.Clients) - 1, Clean: true}, {K: "subscribe", C: len(p.Clients) - 1, Subs: []mqttc.Sub{{Filter: "w/#", QoS: 1}}}}})
 	maybeRedis(rng, p, 0.2)
 	return p
 }
@@ -166,6 +177,11 @@ func oracleC08(p *sim.Plan, out *sim.Outcome) []sim.Violation {
 		cfgExp = *p.Broker.SessionExpiryS
 	}
 	nv := len(p.Clients) - 2
+	late := -1
+	if p.Params["late"] == "1" {
+		nv--
+		late = len(p.Clients) - 1
+	}
 	W, W2 := nv, nv+1
 	const slack = 1500 * time.Millisecond
 	type arrival struct {
@@ -242,8 +258,8 @@ func oracleC08(p *sim.Plan, out *sim.Outcome) []sim.Violation {
 			}
 			o := connOps[e.conn]
 			wl := o.Op.Will
-			if wl == nil {
-				continue
+			if wl == nil || wl.Payload == "" {
+				continue // (a will without payload cannot be attributed on the wire; its effect on the retained store is judged below)
 			}
 			// session expiry in force when the connection ended
 			E := 0
@@ -397,6 +413,51 @@ func oracleC08(p *sim.Plan, out *sim.Outcome) []sim.Violation {
 			if o.Op.K == "connect" && o.Op.C == vi && o.Op.Will != nil {
 				if _, ok := connackT[o.Conn]; !ok && len(arr[o.Op.Will.Payload]) > 0 {
 					vs = append(vs, viol("C08", "exactly_once", "never-connected", "will %q of a connection that was never acknowledged was published", o.Op.Will.Payload))
+				}
+			}
+		}
+	}
+	// C08.content [retained]: a will with Will Retain is a retained publication: the watcher (Retain As Published) saw
+	// every will with its flag, so the last retained one per topic is what a later subscriber must be given —
+	// nothing when that one had no payload
+	if late >= 0 {
+		lastRet := map[string]string{}
+		for _, r := range h.Recs {
+			if r.Kind == "rx" && r.C == W && r.Pkt.Type == mqttc.PUBLISH && r.Pkt.Retain {
+				lastRet[r.Pkt.Topic] = string(r.Pkt.Payload)
+			}
+		}
+		subT := time.Duration(-1)
+		got := map[string][]string{}
+		for _, r := range h.Recs {
+			if r.C != late || r.Kind != "rx" {
+				continue
+			}
+			if r.Pkt.Type == mqttc.SUBACK {
+				subT = r.T
+			}
+			if r.Pkt.Type == mqttc.PUBLISH {
+				got[r.Pkt.Topic] = append(got[r.Pkt.Topic], string(r.Pkt.Payload))
+			}
+		}
+		quiet := subT >= 0
+		for _, r := range h.Recs {
+			if r.Kind == "rx" && r.C == W && r.Pkt.Type == mqttc.PUBLISH && subT >= 0 && r.T >= subT-slack {
+				quiet = false // a will was still being published around the late subscription: not judged
+			}
+		}
+		if quiet {
+			for t, pl := range lastRet {
+				switch {
+				case pl == "" && len(got[t]) > 0:
+					vs = append(vs, viol("C08", "content", "retained-not-cleared", "the last retained will on %q had an empty payload (it clears the retained message), but a later subscriber was given %q", t, got[t]))
+				case pl != "" && (len(got[t]) != 1 || got[t][0] != pl):
+					vs = append(vs, viol("C08", "content", "retained-not-stored", "the last retained will on %q was %q, a later subscriber was given %q", t, pl, got[t]))
+				}
+			}
+			for t := range got {
+				if _, ok := lastRet[t]; !ok {
+					vs = append(vs, viol("C08", "content", "retained-unexpected", "a later subscriber was given %q on %q although no retained will was published there", got[t], t))
 				}
 			}
 		}
